@@ -46,4 +46,68 @@ Section Sem.
   (* effective exponent (times two) of the rule for e = 2 * exponent *)
   Definition eff (e : nat) : Z := Z.of_nat (e mod 4).
   Definition odd_e (e : nat) : bool := Nat.eqb (e mod 4) 2.       (* e = 2t with t an odd integer *)
+
+  (* ---- the action of a signed Pauli string on an n-qubit state (index digits 0/1, one per qubit):
+     (P psi)(i) = sign * prod_j c(P_j, i_j) * psi(i with the digits at the X/Y positions flipped),
+     i.e. row b of the Pauli matrix has its only entry c(p, b) in column b xor x. ---- *)
+  Definition fl (x : bool) (d : nat) : nat := if x then match d with 0 => 1 | _ => 0 end else d.
+  Definition c1 (p : pbit) (d : nat) : K :=
+    match p with
+    | (false, false) => z1
+    | (true, false) => z1
+    | (false, true) => match d with 0 => z1 | _ => kopp O z1 end
+    | (true, true) => match d with 0 => kopp O ii | _ => ii end
+    end.
+  Fixpoint coef (P : list pbit) (i : idx) : K :=
+    match P, i with
+    | p :: P', d :: i' => c1 p d * coef P' i'
+    | _, _ => z1
+    end.
+  Fixpoint xflip (P : list pbit) (i : idx) : idx :=
+    match P, i with
+    | p :: P', d :: i' => fl (fst p) d :: xflip P' i'
+    | _, _ => i
+    end.
+  Definition pauli_act (row : prow) (psi : tensor (K:=K)) : tensor :=
+    fun i => sgn (rsign row) * (coef (rbits row) i * psi (xflip (rbits row) i)).
+
+  (* well-formed n-qubit index *)
+  Definition wf (n : nat) (i : idx) : Prop := length i = n /\ Forall (fun d => d < 2) i.
+
+  (* a gate of a Clifford circuit with its matrix, its local tableau rule and its axes *)
+  Inductive lgate :=
+  | L1 (G : matrix (K:=K)) (f : loc1 -> loc1) (a : nat)
+  | L2 (G : matrix (K:=K)) (f : loc2 -> loc2) (c t : nat).
+  Definition lg_rop (g : lgate) : rop (K:=K) :=
+    match g with
+    | L1 G _ a => {| rop_m := G; rop_dims := [2]; rop_ax := [a] |}
+    | L2 G _ c t => {| rop_m := G; rop_dims := [2; 2]; rop_ax := [c; t] |}
+    end.
+  Definition lg_row (g : lgate) (row : prow) : prow :=
+    match g with
+    | L1 _ f a => row_apply1 f a row
+    | L2 _ f c t => row_apply2 f c t row
+    end.
+  Definition lg_tab (g : lgate) (t : tableau) : tableau := map (lg_row g) t.
+  Definition mk2 (a b c d : K) : matrix := [[a; b]; [c; d]].
+  Definition mk4 (r0 r1 r2 r3 : K * K * K * K) : matrix :=
+    map (fun r => let '(a, b, c, d) := r in [a; b; c; d]) [r0; r1; r2; r3].
+  (* the gate is a 2x2 (4x4) matrix that intertwines every signed Pauli with its image under the rule,
+     and its axes are distinct positions below n *)
+  Definition lg_ok (n : nat) (g : lgate) : Prop :=
+    match g with
+    | L1 G f a => (exists a0 a1 a2 a3, G = mk2 a0 a1 a2 a3) /\ a < n /\
+                  forall p, mmul O G (pms1 p) = mmul O (pms1 (f p)) G
+    | L2 G f c t => (exists r0 r1 r2 r3, G = mk4 r0 r1 r2 r3) /\ c < n /\ t < n /\ c <> t /\
+                    forall p, mmul O G (pms2 p) = mmul O (pms2 (f p)) G
+    end.
+  (* computational basis state |bits> *)
+  Definition b2n (b : bool) : nat := if b then 1 else 0.
+  Fixpoint idx_eqb (a b : idx) : bool :=
+    match a, b with
+    | [], [] => true
+    | x :: a', y :: b' => Nat.eqb x y && idx_eqb a' b'
+    | _, _ => false
+    end.
+  Definition ket (bits : list bool) : tensor (K:=K) := fun i => if idx_eqb i (map b2n bits) then z1 else z0.
 End Sem.
